@@ -141,17 +141,18 @@ Print Assumptions C08_swallow_silent.
 (* Every raise site of start_response: the task is untouched (refused at the
    door), or complete = True, the fields are the old ones ([] after exc_info) --
    never extended --, the status is the old one or the call's own status once it
-   passed the str and CR/LF checks, content_length is the old one or int() of a
-   Content-Length pair of this list (also when a LATER pair is refused). *)
+   passed the str and CR/LF checks, and content_length is the old one (None once
+   exc_info cleared the headers): a length declared by a call that is refused --
+   also when a LATER pair is refused -- is never recorded (/repo fix 5926e3b). *)
 Theorem C08_refusal_residue : forall t status headers exc t' e,
   start_response py_lower t status headers exc = (t', Exn e) ->
   t' = t
   \/ (t_complete t' = true
       /\ t_rh t' = match exc with Some _ => [] | None => t_rh t end
       /\ (exc <> None -> t_wrote_header t = false)
-      /\ ((bad_obj status = true /\ t_status t' = t_status t /\ t_clen t' = t_clen t)
-          \/ (exists s, status = PStr s /\ has_crlf s = false /\ t_status t' = s
-                        /\ clen_from py_lower headers (t_clen t) (t_clen t')))).
+      /\ t_clen t' = match exc with Some _ => None | None => t_clen t end
+      /\ ((bad_obj status = true /\ t_status t' = t_status t)
+          \/ (exists s, status = PStr s /\ has_crlf s = false /\ t_status t' = s))).
 Proof. exact (start_response_residue py_lower). Qed.
 Print Assumptions C08_refusal_residue.
 
@@ -228,16 +229,18 @@ Print Assumptions C08_swallowed_instances.
    status on the wire belongs to a call accepted as a whole, or is the default"
    is refuted by  try: start_response("404 Not Found", [("Content-Length","3"),
    ("X-Bad\n","v")]) except ValueError: pass; return [b"hello"]  -- the wire says
-   404 Not Found, Content-Length: 3, "hel". *)
+   404 Not Found.  (Until /repo fix 5926e3b it also said Content-Length: 3 and
+   "hel": the length declared by the refused call was applied; now the length is
+   the server's own, of the single chunk.) *)
 Theorem C08_strict_status_refuted : ~ strict_status_statement.
 Proof. exact strict_status_refuted. Qed.
 Print Assumptions C08_strict_status_refuted.
 
 Theorem C08_residue_instance :
   o_writes (run_task sample_cfg sample_req residue_app None) =
-    [WBytes (lit "HTTP/1.1 404 Not Found" ++ CRLF ++ lit "Content-Length: 3" ++ CRLF
+    [WBytes (lit "HTTP/1.1 404 Not Found" ++ CRLF ++ lit "Content-Length: 5" ++ CRLF
              ++ lit "Date: Thu, 01 Jan 2026 00:00:00 GMT" ++ CRLF ++ lit "Server: waitress" ++ CRLF ++ CRLF);
-     WBytes (lit "hel")].
+     WBytes (lit "hello")].
 Proof. exact residue_instance. Qed.
 Print Assumptions C08_residue_instance.
 
